@@ -27,6 +27,14 @@ transformer size, every field layout):
 * `C17_fn_faithful` — all of the above end to end, from the definition to the stored outputs.
 * `C17_xf_preview`, `C17_xf_list/_dict/_df/_unpack`, `C17_dc_preview`, `C17_xf_dataclass*`, `C17_xf_rerun*` —
   the transformer and dataclass nodes are the obvious maps, for every size and layout.
+* `C17_bind_positions`, `C17_default_identity`, `C17_default_copy_witness` — values carry an identity
+  (`Val.obj id kind`): position `i` receives, by precedence, the call's / the construction's positional or
+  keyword value and else the parameter's default OBJECT (same identity tag, in the preview, in the instance
+  channel and in what the body is handed); a `_setup_node` that copied the defaults is refuted by a witness
+  whose body asks `arg is _DEFAULT`.
+* `C17_xf_list_index_order`, `C17_xf_list_sorted_witness` — entry `i` of the list is the value supplied for
+  `item_i` for every `n` (labels live in channel creation order, nothing is sorted); sorting the labels as
+  strings is the same order up to `n = 10` and a different one at `n = 11`, by computation.
 
 What python's `inspect` and `ast` do with the *text* of a definition is an input of the model, not part of
 it: the model is handed the parameters (name, evaluated annotation, default), the `return` statements as
@@ -799,6 +807,169 @@ example : (listPreview 2).1.map (·.label) = ["item_0", "item_1"] ∧ (unpackPre
 example : (dcInPreview witnessFields [some "builtins.int", some "builtins.list"]).map (fun p => (p.label, p.dflt))
     = [("x", .nd), ("z", .nd)] ∧ (dcNode witnessFields).ins = [("x", .nd), ("z", .atom "g()")] := ⟨rfl, rfl⟩
 
+/-! ### argument-to-channel mapping by position, identity of default objects, sizes beyond one digit -/
+
+/-- **which value reaches which parameter**: whenever Python binds `vs` (and then, by `C17_bind`, the node
+hands its body exactly `vs`), the value at position `i` is — in this order of precedence — the `i`-th
+positional value of the call, the call's keyword value named like parameter `i`, the `i`-th positional value
+of the construction, the construction's keyword value of that name, and else the parameter's default: the
+default OBJECT itself (values carry their identity, `Val.obj`), not something equal to it. -/
+theorem C17_bind_positions (sig : Sig) (a1 : List Val) (k1 : List (String × Val)) (a2 : List Val)
+    (k2 : List (String × Val)) (hnd : (sig.map (·.name)).Nodup) (vs : List Val)
+    (hp : pyArgs sig a1 k1 a2 k2 = .ok vs) :
+    vs.length = sig.length ∧
+    ∀ i (hi : i < sig.length), vs[i]? =
+      ((if i < a2.length then a2[i]? else k2.lookup sig[i].name) <|>
+       (if i < a1.length then a1[i]? else k1.lookup sig[i].name) <|> sig[i].dflt) :=
+  pyArgs_get sig a1 k1 a2 k2 hnd vs hp
+
+/-- **the default is the parameter's default object**: class-level preview, the instance channel's
+`default` and its initial `value` all hold the very object written as default in the signature (same
+identity tag); and a parameter left out at construction and at call reaches the function body as that
+object. -/
+theorem C17_default_identity (ps : List FParam) (pin : List InPrev) (h : previewInputs ps = .ok pin)
+    (i : Nat) (hi : i < ps.length) (id : Nat) (k : String) (hd : ps[i].dflt = some (.obj id k)) :
+    (pin[i]?).map (·.dflt) = some (.obj id k) ∧
+    ((setupIns pin)[i]?).map (·.dflt) = some (.obj id k) ∧
+    ((setupIns pin)[i]?).map (·.value) = some (.obj id k) ∧
+    ∀ (a1 : List Val) (k1 : List (String × Val)) (a2 : List Val) (k2 : List (String × Val)) (vs : List Val),
+      ((ps.map (·.name)).Nodup) →
+      pyArgs (ps.map fun p => { name := p.name, dflt := p.dflt }) a1 k1 a2 k2 = .ok vs →
+      a1.length ≤ i → a2.length ≤ i → k1.lookup ps[i].name = none → k2.lookup ps[i].name = none →
+      vs[i]? = some (.obj id k) := by
+  have hpin := (previewInputs_inv ps pin h).1
+  subst hpin
+  refine ⟨?_, ?_, ?_, ?_⟩
+  · simp [expectedIns, hi, hd]
+  · simp [expectedIns, setupIns, hi, hd]
+  · simp [expectedIns, setupIns, hi, hd]
+  · intro a1 k1 a2 k2 vs hnd hp h1 h2 hk1 hk2
+    have hnd' : ((ps.map fun p => ({ name := p.name, dflt := p.dflt } : Param)).map (·.name)).Nodup := by
+      simpa [Function.comp_def] using hnd
+    have := (pyArgs_get _ a1 k1 a2 k2 hnd' vs hp).2 i (by simpa using hi)
+    rw [this]
+    have n1 : ¬ i < a1.length := by omega
+    have n2 : ¬ i < a2.length := by omega
+    simp [n1, n2, hk1, hk2, hd]
+
+/-- witness objects: `_UNSET = object(); def f(x=_UNSET): return "unset" if x is _UNSET else "given"` -/
+def cwPin : List InPrev := [⟨"x", none, .obj 7 "sentinel"⟩]
+def cwF : List Val → Val := fun vs =>
+  if (vs.headD .nd).sameObj (.obj 7 "sentinel") then .atom "unset" else .atom "given"
+def cwGood : Node := setupNode cwPin [("r", none)]
+/-- the same node had `_setup_node` copied the defaults -/
+def cwBad : Node := { cwGood with ins := chanPanel (setupInsCopied (fun i => 1000 + i) 0 cwPin) }
+
+/-- a `_setup_node` that copied the defaults would keep every label and everything `==` can see, yet break
+the statement: the channel holds an equal copy, not the object, and a function that asks `arg is _DEFAULT`
+returns something else through the node than when called directly. -/
+theorem C17_default_copy_witness :
+    pyCall [⟨"x", some (.obj 7 "sentinel")⟩] cwF [] [] = .ok (.atom "unset") ∧
+    (call cwF cwGood [] []).2 = .ret (.atom "unset") ∧
+    (call cwF cwBad [] []).2 = .ret (.atom "given") ∧
+    labels cwBad.ins = labels cwGood.ins ∧
+    ((values cwBad.ins).zip (values cwGood.ins)).all (fun p => p.1.looksLike p.2 && !p.1.sameObj p.2) = true :=
+  ⟨rfl, rfl, rfl, rfl, by decide⟩
+
+/-- `inputs_to_list(n)`, **index order for every n**: the list has `n` entries and entry `i` is the value
+supplied for `item_i` — positionally as the `i`-th value, or under the keyword `item_i`, at the call or
+else at construction — whatever the order in which keywords were written, for every `n` (nothing is ever
+sorted: `item_10` is entry 10, not entry 2). -/
+theorem C17_xf_list_index_order (n : Nat) (a1 : List Val) (k1 : List (String × Val)) (a2 : List Val)
+    (k2 : List (String × Val))
+    (hk1 : (k1.map (·.1)).Nodup) (hk2 : (k2.map (·.1)).Nodup) (hd1 : DataVals a1 k1) (hd2 : DataVals a2 k2)
+    (vs : List Val) (hp : pyArgs (noDefault (itemLabels "item_" n)) a1 k1 a2 k2 = .ok vs) :
+    (∃ n1 n2, construct (inputsToListNode n) a1 k1 = .ok n1 ∧
+      xfCall .toList n1 a2 k2 = (n2, .ret (Val.list vs)) ∧ n2.outs = [("list", Val.list vs)]) ∧
+    vs.length = n ∧
+    ∀ i, i < n → vs[i]? =
+      ((if i < a2.length then a2[i]? else k2.lookup ("item_" ++ toString i)) <|>
+       (if i < a1.length then a1[i]? else k1.lookup ("item_" ++ toString i))) := by
+  have hnd : ((noDefault (itemLabels "item_" n)).map (·.name)).Nodup := by
+    rw [noDefault_names]; exact itemLabels_nodup _ _
+  obtain ⟨hl, hg⟩ := pyArgs_get _ a1 k1 a2 k2 hnd vs hp
+  have hlen : (noDefault (itemLabels "item_" n)).length = n := by simp [noDefault, itemLabels]
+  refine ⟨C17_xf_list n a1 k1 a2 k2 hk1 hk2 hd1 hd2 vs hp, by rw [hl, hlen], ?_⟩
+  intro i hi
+  have := hg i (by rw [hlen]; exact hi)
+  rw [this]
+  have hname : ((noDefault (itemLabels "item_" n))[i]'(by rw [hlen]; exact hi)).name = "item_" ++ toString i := by
+    simp [noDefault, itemLabels]
+  have hdf : ((noDefault (itemLabels "item_" n))[i]'(by rw [hlen]; exact hi)).dflt = none := by
+    simp [noDefault]
+  rw [hname, hdf]
+  simp
+
+/-- the values `v0 … v10` on `item_0 … item_10` -/
+def elevenIns : Panel := (itemLabels "item_" 11).zip ((List.range 11).map fun i => Val.atom ("v" ++ toString i))
+
+/-- **string order is not index order**: sorting the labels as strings gives the creation order for every
+size up to 10 — all that examples and tests use — and a different one at 11 (`item_10` sorts before
+`item_2`); a transformer body that went through `sorted(labels)` would hand back `v10` as third entry where
+the body as coded (`xfBody`, channel order) returns `v0 … v10` in index order. -/
+theorem C17_xf_list_sorted_witness :
+    (∀ n, n ≤ 10 → sortLex (itemLabels "item_" n) = itemLabels "item_" n) ∧
+    sortLex (itemLabels "item_" 11)
+      = ["item_0", "item_1", "item_10", "item_2", "item_3", "item_4", "item_5", "item_6", "item_7", "item_8", "item_9"] ∧
+    sortLex (itemLabels "item_" 11) ≠ itemLabels "item_" 11 ∧
+    xfBody .toList elevenIns = some (Val.list ((List.range 11).map fun i => Val.atom ("v" ++ toString i))) ∧
+    listBodySorted elevenIns = Val.list (["v0", "v1", "v10", "v2", "v3", "v4", "v5", "v6", "v7", "v8", "v9"].map Val.atom) ∧
+    some (listBodySorted elevenIns) ≠ xfBody .toList elevenIns := by
+  refine ⟨by decide, by decide, by decide, rfl, rfl, ?_⟩
+  have h1 : listBodySorted elevenIns
+      = Val.list (["v0", "v1", "v10", "v2", "v3", "v4", "v5", "v6", "v7", "v8", "v9"].map Val.atom) := rfl
+  have h2 : xfBody .toList elevenIns = some (Val.list ((List.range 11).map fun i => Val.atom ("v" ++ toString i))) := rfl
+  rw [h1, h2]
+  simp only [Val.list, List.range, List.range.loop, List.map_cons, List.map_nil, ne_eq, Option.some.injEq,
+    Val.node.injEq, List.cons.injEq, Val.atom.injEq, true_and, and_true, not_and]
+  intro _ _ h
+  exact absurd h (by decide)
+
+/-! ### non-vacuity of the identity and size theorems -/
+
+/-- `_UNSET = object(); def g(a, x=_UNSET, y=[…])` with `y`'s default a (shared, mutable) list object -/
+def exIdParams : List FParam :=
+  [⟨"a", .empty, none⟩, ⟨"x", .empty, some (.obj 7 "sentinel")⟩, ⟨"y", .obj "builtins.list", some (.obj 8 "list")⟩]
+def exIdSig : Sig := exIdParams.map fun p => { name := p.name, dflt := p.dflt }
+/-- a body whose result depends on `x is _UNSET` -/
+def exIdF (vs : List Val) : Val :=
+  if (vs.getD 1 .nd).sameObj (.obj 7 "sentinel") then .node "app0" [] vs else .node "app50" [] vs
+
+/-- hypotheses of `C17_default_identity` / `C17_bind_positions`: the preview exists, Python binds -/
+example : previewInputs exIdParams = .ok [⟨"a", none, .nd⟩, ⟨"x", none, .obj 7 "sentinel"⟩, ⟨"y", some "builtins.list", .obj 8 "list"⟩] := rfl
+example : pyArgs exIdSig [.atom "i1"] [] [] [] = .ok [.atom "i1", .obj 7 "sentinel", .obj 8 "list"] := rfl
+/-- left at its default the body sees the sentinel itself; given an equal-looking other object, or the
+sentinel explicitly, Python and the node still agree (computed by the model) -/
+example : (match construct (mkNode exIdSig ["r"]) [.atom "i1"] [] with
+    | .ok n1 => some (call exIdF n1 [] []).2 | .error _ => none)
+    = some (.ret (.node "app0" [] [.atom "i1", .obj 7 "sentinel", .obj 8 "list"])) := rfl
+example : pyCall2 exIdSig exIdF [.atom "i1"] [] [] [("x", .obj 9 "sentinel")]
+    = .ok (.node "app50" [] [.atom "i1", .obj 9 "sentinel", .obj 8 "list"]) := rfl
+example : (match construct (mkNode exIdSig ["r"]) [.atom "i1"] [] with
+    | .ok n1 => some (call exIdF n1 [] [("x", .obj 9 "sentinel")]).2 | .error _ => none)
+    = some (.ret (.node "app50" [] [.atom "i1", .obj 9 "sentinel", .obj 8 "list"])) := rfl
+example : (match construct (mkNode exIdSig ["r"]) [.atom "i1"] [("x", .obj 7 "sentinel")] with
+    | .ok n1 => some (call exIdF n1 [] []).2 | .error _ => none)
+    = some (.ret (.node "app0" [] [.atom "i1", .obj 7 "sentinel", .obj 8 "list"])) := rfl
+/-- "same object" and "equal copy" are different things in the model -/
+example : (Val.obj 7 "sentinel").looksLike ((Val.obj 7 "sentinel").copyAs 1000) = true ∧
+    (Val.obj 7 "sentinel").sameObj ((Val.obj 7 "sentinel").copyAs 1000) = false ∧
+    (Val.obj 7 "sentinel").copyAs 1000 ≠ Val.obj 7 "sentinel" := ⟨rfl, rfl, by simp [Val.copyAs]⟩
+/-- hypothesis of `C17_xf_list_index_order` at a size past one digit: five positional values at construction,
+`item_5 … item_11` by keyword at the call, written in reverse -/
+example : pyArgs (noDefault (itemLabels "item_" 12))
+    ((List.range 5).map fun i => Val.atom ("v" ++ toString i)) [] []
+    (((List.range 7).map fun j => ("item_" ++ toString (11 - j), Val.atom ("v" ++ toString (11 - j)))))
+    = .ok ((List.range 12).map fun i => Val.atom ("v" ++ toString i)) := by rfl
+example : (match construct (inputsToListNode 12) ((List.range 5).map fun i => Val.atom ("v" ++ toString i)) [] with
+    | .ok n1 => some (xfCall .toList n1 []
+        (((List.range 7).map fun j => ("item_" ++ toString (11 - j), Val.atom ("v" ++ toString (11 - j)))))).2
+    | .error _ => none)
+    = some (.ret (Val.list ((List.range 12).map fun i => Val.atom ("v" ++ toString i)))) := by rfl
+/-- `list_to_outputs(12)`: item 10 goes to the output `item_10` (eleventh channel), item 2 to `item_2` -/
+example : ((unpackCall (listToOutputsNode 12) [Val.list ((List.range 12).map fun i => Val.atom ("v" ++ toString i))] []).1.outs)
+    = (List.range 12).map fun i => ("item_" ++ toString i, Val.atom ("v" ++ toString i)) := by rfl
+
 end PwVerif.C17
 
 #print axioms PwVerif.C17.C17_bind
@@ -827,3 +998,8 @@ end PwVerif.C17
 #print axioms PwVerif.C17.C17_fn_faithful
 #print axioms PwVerif.C17.C17_xf_preview
 #print axioms PwVerif.C17.C17_dc_preview
+#print axioms PwVerif.C17.C17_bind_positions
+#print axioms PwVerif.C17.C17_default_identity
+#print axioms PwVerif.C17.C17_default_copy_witness
+#print axioms PwVerif.C17.C17_xf_list_index_order
+#print axioms PwVerif.C17.C17_xf_list_sorted_witness
